@@ -50,6 +50,8 @@ def main():
     open(os.path.join(VERIF, "seeded", "STATUS.md"), "w").write("\n".join(rows) + "\n")
     rc, out = sh("git -C /repo status --porcelain")
     assert out.strip() == "", "/repo left dirty: " + out
+    # evidence written while /repo was patched is not evidence about the tree: restore the committed files
+    sh(f"git -C {VERIF} checkout -- evidence")
 
 
 if __name__ == "__main__":
